@@ -26,6 +26,33 @@ import oracle as O
 TRUE = z3.BitVecVal(0, 64)
 
 
+def confirm_override(ck, br, d, model, key, f):
+    """native confirmation through the std containers that implement Object (HashMap) and the hand-written one"""
+    docj = d.render(model)
+    exp = None
+    for cond, e in ref_resolve(d, key):
+        if cond is True or z3.is_true(model.eval(z3bool(cond), model_completion=True)):
+            exp = e
+    expj = exp.render(model) if exp is not None else None
+    out = {}
+    for mode in ('hashmap', 'object'):
+        n = br.call(cmd='find', key=list(key.encode()), doc=docj, mode=mode)
+        out[mode] = n
+        natv = n.get('value') if n.get('found') else None
+        if 'panic' in n or json.dumps(natv, sort_keys=True) != json.dumps(expj, sort_keys=True):
+            path = ck.write_replay('override_' + safe(key), {'function': f.name, 'key': key, 'doc': docj, 'native': out, 'expected': expj, 'mode': mode,
+                                                            'request': {'cmd': 'find', 'key': list(key.encode()), 'doc': docj, 'mode': mode}})
+            ck.replays_ok += 1
+            return ('violation', path, '%s: find(%r) on a %s document %s returns %s, the addressed value is %s' % (
+                f.name.split('::')[-2][-40:], key, mode, json.dumps(docj), json.dumps(natv), json.dumps(expj)))
+    return ('spurious', 'native find agrees with the reference for HashMap and Object documents')
+
+
+def main_ident_of(t):
+    from mirsym.program import main_ident
+    return main_ident(t)
+
+
 def main():
     ck = Check('C10', 'model_checking')
     quick = ck.tier == 'quick'
@@ -48,6 +75,7 @@ def main():
         units.append(('resolve', [k[0] for k in keys[i:i + chunk]]))
     for fam in ('plain', 'list', 'two', 'deep', 'index'):
         units.append(('nested', fam))
+    units.append(('overrides',))
     ck.extra['enumerated_keys'] = len(keys)
     ck.run_units(units, run_unit)
     ck.finish('Object::find MIR on symbolic keys (totality) and on enumerated keys over a symbolic object graph vs reference resolver; '
@@ -228,6 +256,44 @@ def run_unit(ck, unit):
                     return ('spurious', 'native find agrees with the reference (%s)' % path)
                 return ('violation', path, 'find(%r) on %s: native %s, addressed value %s' % (key, json.dumps(docj), json.dumps(natv), json.dumps(expj)))
             ck.obligation('find(%r)' % key, uni, neg, sample={'key': key, 'paths': len(res), 'reference_branches': len(ref)}, on_sat=on_sat)
+        return
+    if kind == 'overrides':
+        # an Object implementation of the crate that overrides `find` must still resolve paths as documented
+        overrides = [f for f in prog.fns if f.kind == 'fn' and '<impl at ' in f.name and f.name.endswith('::find') and 'closure' not in f.name
+                     and (prog.impl_info(f.name) or (None, None))[0] and main_ident_of(prog.impl_info(f.name)[0]) == 'Object']
+        ck.extra['object_find_overrides'] = [f.name for f in overrides]
+        ck.obligations += 1
+        if not overrides:
+            ck.discharged += 1
+            ck.samples.append({'form': 'Object impls overriding find()', 'found': 0})
+            return
+        ck.obligations -= 1
+        br = ck.bridge()
+        for f in overrides:
+            uni = engine.Universe()
+            ex = ck.new_engine(prog, uni=uni, summarise=())
+            models_chars.install(ex)
+            d = SymDoc(uni, 'doc', Bounds(str_cap=1, arr_cap=2, depth=3, as_object=True))
+            for key in ['a', 'a.b', 'a[0]', 'a.b.a', 'b.a[1]', 'a[1].b', 'a..b']:
+                # the container may also hold the whole key text as a literal name: the documented lookup never consults it
+                res = ex.explore(f, [Ref(Cont([d]), 0), StrV(key.encode())])
+                ref = ref_resolve(d, key)
+                bad = []
+                for r in res:
+                    if r.kind == 'panic':
+                        bad.append(r.cond())
+                        continue
+                    v = r.value
+                    got = v.items[0] if isinstance(v, Adt) and v.variant == 1 else None
+                    for cond, exp in ref:
+                        expv = exp.value() if exp is not None else None
+                        if got is not expv:
+                            c = b_and(r.cond(), cond)
+                            if c is not False:
+                                bad.append(c)
+                ck.obligation('%s(%r) resolves like Object::find' % (f.name.split('>::')[0][-30:], key), uni, b_or(*bad) if bad else False,
+                              sample={'override': f.name, 'key': key},
+                              on_sat=lambda m, key=key, f=f: confirm_override(ck, br, d, m, key, f))
         return
     if kind == 'nested':
         fam = unit[1]
